@@ -30,7 +30,7 @@ if [ "${SKIP_DEMO:-0}" != 1 ] && [ -n "$PLACE" ] && [ -f "$PLACE" ]; then
   rm -f "$PLACE"
 fi
 if [ "${SKIP_SUITE:-0}" != 1 ]; then
-  go test -mod=mod -vet=off -count=1 $(go list ./... | grep -v wire/net/libp2p) 2>&1 | grep -E "^(FAIL|---)" | grep -v "wire/net/libp2p" | grep -v "TestBus" | grep -v "^FAIL$" | grep -v "wire/net/simple" | head -5 > $WT.suite.log
+  go test -mod=mod -vet=off -count=1 $(go list ./... | grep -v wire/net/libp2p) 2>&1 | grep -E "^(FAIL|---)" | grep -v "wire/net/libp2p" | grep -v "TestBus" | grep -v -- "--- FAIL: TestAddress" | grep -v "^FAIL$" | grep -v "wire/net/simple" | head -5 > $WT.suite.log
   if [ -s $WT.suite.log ]; then echo "existing suite with change: FAILS:"; cat $WT.suite.log; else echo "existing suite with change: passes (libp2p excluded)"; fi
 fi
 cd /verif && VERIF_REPO="$WT" ./check "$PID" "$TIER" > $WT.check.log 2>&1; RC=$?
